@@ -923,7 +923,7 @@ impl<'c> Gen<'c> {
             Ty::Bool => {
                 let k = self.c.below(10);
                 match k {
-                    0..=3 => self.comparison(d),
+                    0..=3 => self.comparison(d, fix),
                     4 => {
                         let a = self.expr(ty, d, Fix::Direct);
                         let b = match self.exit_operand(d) {
@@ -1101,7 +1101,7 @@ impl<'c> Gen<'c> {
         Expr::Bin(op, Box::new(l), Box::new(r))
     }
 
-    fn comparison(&mut self, d: u32) -> Expr {
+    fn comparison(&mut self, d: u32, fix: Fix) -> Expr {
         let k = self.c.below(10);
         let op = [BinOp::Eq, BinOp::Ne, BinOp::Lt, BinOp::Le, BinOp::Gt, BinOp::Ge][self.c.below(6)];
         if k < 7 || !self.prof.aggregates {
@@ -1120,7 +1120,8 @@ impl<'c> Gen<'c> {
             let op = if self.c.chance(128) { BinOp::Eq } else { BinOp::Ne };
             let t = self.value_ty(2);
             if matches!(t, Ty::Unit) {
-                let l = self.expr(&Ty::Bool, d, Fix::Direct);
+                // no comparison after all: the context of the whole expression stays what it was
+                let l = self.expr(&Ty::Bool, d, fix);
                 return l;
             }
             let l = self.leaf_known(&t);
